@@ -46,6 +46,7 @@ type Session struct {
 	BasePath string
 	leak     bool
 	SubDir   string // directory of the Sub view the calls go through
+	Win      bool   // a Windows-typed file system: C:\ paths, modes and owners are not compared
 }
 
 // Cred is the acting user of the session (nil = administrator).
@@ -59,6 +60,9 @@ var errnoNames = map[uintptr]string{
 	21: "EISDIR", 22: "EINVAL", 39: "ENOTEMPTY", 40: "ELOOP", 36: "ENAMETOOLONG", 26: "ETXTBSY", 5: "EIO",
 	28: "ENOSPC", 30: "EROFS", 31: "EMLINK",
 }
+
+// winSession is set once a factory for a Windows-typed target exists: a driver process serves one target.
+var winSession bool
 
 // ErrName maps an error to the abstract error vocabulary of the specification.
 func ErrName(err error) string {
@@ -92,6 +96,10 @@ func ErrName(err error) string {
 	switch e := err.(type) {
 	case avfs.LinuxError:
 		if n, ok := errnoNames[uintptr(e)]; ok {
+			if winSession {
+				return "LINUX-" + n // a Linux error value out of a Windows-typed file system
+			}
+
 			return n
 		}
 
@@ -103,7 +111,7 @@ func ErrName(err error) string {
 
 		return fmt.Sprintf("ERRNO%d", uintptr(e))
 	case avfs.WindowsError:
-		return fmt.Sprintf("WIN%d", uintptr(e))
+		return "WIN"
 	}
 
 	switch {
@@ -213,6 +221,9 @@ func kindOf(m fs.FileMode) string {
 
 func (s *Session) infoOf(fi fs.FileInfo) Info {
 	in := Info{K: kindOf(fi.Mode()), M: UnixMode(fi.Mode())}
+	if s.Win {
+		in.M = 0
+	}
 
 	if in.K == "file" {
 		in.Sz = int(fi.Size())
@@ -222,7 +233,7 @@ func (s *Session) infoOf(fi fs.FileInfo) Info {
 		defer func() { _ = recover() }()
 
 		st := s.base().ToSysStat(fi)
-		if !s.NoIdm {
+		if !s.NoIdm && !s.Win {
 			in.U, in.G = st.Uid(), st.Gid()
 		}
 
@@ -280,6 +291,11 @@ func (s *Session) leakIn(str string) {
 func (s *Session) abstractPath(t string) Path {
 	s.leakIn(t)
 	p := ParsePath(t)
+
+	if s.Win {
+		p = ParsePathWin(t)
+	}
+
 	for i, c := range p.Parts {
 		p.Parts[i] = s.abstractName(c)
 	}
@@ -309,6 +325,10 @@ func (s *Session) render(p Path) string {
 				s.Diverged = true
 			}
 		}
+	}
+
+	if s.Win {
+		return q.RenderWin()
 	}
 
 	return q.Render()
@@ -417,6 +437,11 @@ func (s *Session) exec(c Call, res *Res) {
 		if err == nil {
 			dir, base := vfs.Split(name)
 			ok := strings.HasPrefix(base, "t") && len(base) > 1 && vfs.Clean(dir) == vfs.Clean(p)
+
+			if s.Win {
+				// the helpers of the Windows flavour are the subject of C13, not of this comparison
+				ok = strings.HasPrefix(base, "t") && len(base) > 1
+			}
 			if _, dup := s.Tmp[base]; dup {
 				ok = false
 			}
@@ -458,6 +483,8 @@ func (s *Session) exec(c Call, res *Res) {
 		setErr(vfs.Chdir(p))
 	case "setumask":
 		setErr(vfs.SetUMask(fs.FileMode(c.Perm)))
+	case "osinfo":
+		res.Names = []string{vfs.OSType().String(), string(vfs.PathSeparator())}
 	case "subwrite", "submkdir":
 		// Sub(dir), then a mutator through the file system it returns
 		sub, err := vfs.Sub(p)
@@ -465,7 +492,7 @@ func (s *Session) exec(c Call, res *Res) {
 
 		if err == nil {
 			if c.Op == "subwrite" {
-				setErr(sub.WriteFile("/"+q, bytesOf(c.Data), 0o644))
+				setErr(sub.WriteFile(string(vfs.PathSeparator())+q, bytesOf(c.Data), 0o644))
 			} else {
 				setErr(sub.Mkdir("/"+q, 0o755))
 			}
